@@ -750,6 +750,8 @@ fn gen_c11(rng: &mut Rng, ctx: &mut Ctx, rep: &mut Report, emit: Emit) {
 }
 
 fn gen_c12(rng: &mut Rng, ctx: &mut Ctx, rep: &mut Report, emit: Emit) {
+    // CreationTimestamp::now() never goes back in time: give every report a later clock reading
+    let mut clock: u64 = 1_000_000;
     for i in 0..ctx.n(10_000, 1_000_000) {
         if i % 2 == 0 {
             let rec = if rng.chance(1, 5) {
@@ -770,7 +772,8 @@ fn gen_c12(rng: &mut Rng, ctx: &mut Ctx, rep: &mut Report, emit: Emit) {
             if rng.chance(9, 10) && b.primary.report_to == EndpointID::none() { b.primary.report_to = EndpointID::with_dtn("rpt/x").unwrap(); }
             if rng.chance(1, 2) { b.primary.bundle_control_flags |= 0x40; }
             let src = loop { let e = gen_eid_wf(rng); if e != EndpointID::none() { break e; } };
-            let now = 1 + rng.u64b() / 4;
+            clock += 1 + rng.below(100_000);
+            let now = clock;
             let pos = if rng.chance(1, 30) { 4 + rng.below(3) } else { rng.below(4) };
             let reason = match rng.below(5) { 0 => u32::MAX as u64, _ => rng.below(12) };
             emit(ctx, rep, format!("adm.report {} {} {} {} {} {} {} {}", show_eid(&src), rng.below(3), pos, reason, now, now, rng.below(1000), show_bundle(&b)));
